@@ -188,8 +188,9 @@ def _read(p):
 
 VARIANTS = {
     "plain": ["-O1", "-g0"],
+    # _GLIBCXX_ASSERTIONS: std::array / std::bitset / std::vector indexing is range-checked (table indices, C18)
     "san": ["-O1", "-g", "-fsanitize=address,undefined", "-fno-sanitize-recover=all",
-            "-fno-omit-frame-pointer"],
+            "-fno-omit-frame-pointer", "-D_GLIBCXX_ASSERTIONS"],
     "tsan": ["-O1", "-g", "-fsanitize=thread"],
 }
 
